@@ -559,6 +559,10 @@ def _build_case(case):
     if b["missing_modules"] and b["rc"] == 0:
         why = "finished but did not produce %s" % ", ".join(b["missing_modules"])
     detail = " | ".join(b["errors"][:4]) or b["log_tail"][-400:]
+    env_trouble = b["timed_out"] or re.search(r"No space left on device|Cannot allocate memory|Disk quota exceeded", b["log_tail"] or "")
+    if env_trouble and not b["sanitized"]:
+        return result(INCO, cls=cls, what="documented build could not be completed for environmental reasons (%s): %s" % (why, detail),
+                      witness={"cmd": b["cmd"], "log_tail": b["log_tail"]})
     if b["sanitized"]:
         return result(INCO, cls=cls, what="sanitized build (extra flags are ours) failed (%s): %s" % (why, detail),
                       witness={"cmd": b["cmd"], "log_tail": b["log_tail"]})
